@@ -343,7 +343,40 @@ def rule_8(ctx):
             ctx.expect(name not in wrong, f.node, f'{name} on native arguments, calls made {oname} in one process',
                        f'{"; ".join(wrong.get(name, [])[:4])}: a native argument is the value of its own Python type (True a boolean, 1.0 a number) '
                        'whatever was compared earlier in the process')
-    ctx.floor(8, 'four ordered comparisons x two call orders')
+    # the same calls written with keyword arguments, in either order: left is left
+    for name, fn in table.items():
+        f = V.registered(ctx, name)
+        wrong = []
+        for (la, a, ka), (lb, b, kb) in ((natives[2], natives[6]), (natives[6], natives[2]), (natives[0], natives[1]), (natives[1], natives[0]), (natives[5], natives[7]),
+                                         (natives[3], natives[4]), (natives[8], natives[7])):
+            for form, args, kw in (('right=, left=', [], {'right': b, 'left': a}), ('left=, right=', [], {'left': a, 'right': b}), ('left by position, right=', [a], {'right': b})):
+                out = V.call(ctx, name, args, kwargs=kw)
+                got = V.norm(out.value) if out.end == 'return' else (out.end, V.norm(out.value))
+                val = got[1] if isinstance(got, tuple) and len(got) == 2 and got[0] == 'Boolean' else got
+                n += 1
+                if val is not fn(ka, kb):
+                    wrong.append(f'{name}({form}: left {la}, right {lb}) = {got!r} instead of {fn(ka, kb)}')
+        ctx.expect(not wrong, f.node, f'{name} called with keyword arguments', '; '.join(wrong[:4]) + ': an argument given as left= is the left operand wherever it is written')
+    # = and <> between a value instance (number, boolean) and a native value of the other kind, in both positions
+    eq = {'OP_EQ': op_.eq, 'OP_NE': op_.ne}
+    mixed = [('Number 1', V.num(1), (0, 1)), ('Number 0', V.num(0), (0, 0)), ('Boolean TRUE', V.boolean(True), (2, 1)), ('Boolean FALSE', V.boolean(False), (2, 0)),
+             ('Number 2.5', V.num(2.5), (0, 2.5))]
+    plain = [('True', True, (2, 1)), ('False', False, (2, 0)), ('1', 1, (0, 1)), ('0', 0, (0, 0)), ('2.5', 2.5, (0, 2.5)), ('1.0', 1.0, (0, 1.0))]
+    for name, fn in eq.items():
+        f = V.registered(ctx, name)
+        wrong = []
+        for lw, w, kw_ in mixed:
+            for lp, p_, kp in plain:
+                for la, a, ka, lb, b, kb in ((lw, w, kw_, lp, p_, kp), (lp, p_, kp, lw, w, kw_)):
+                    out = V.call(ctx, name, [a, b])
+                    got = V.norm(out.value) if out.end == 'return' else (out.end, V.norm(out.value))
+                    val = got[1] if isinstance(got, tuple) and len(got) == 2 and got[0] == 'Boolean' else got
+                    n += 1
+                    if val is not fn(ka, kb):
+                        wrong.append(f'{name}({la}, {lb}) = {got!r} instead of {fn(ka, kb)}')
+        ctx.expect(not wrong, f.node, f'{name} between a value instance and a native value', '; '.join(wrong[:4])
+                   + ': a native True is a boolean and a native 1 a number, whichever side carries the value instance')
+    ctx.floor(14, 'four ordered comparisons x two call orders, keyword forms, = and <> on mixed operands')
     ctx.note(f'{n} calls')
 
 
